@@ -625,9 +625,14 @@ def compute_mro(cls:'Class') -> Sequence[Union['Class', str]]:
         """
         Like L{Class.baseobjects} but fallback to the expanded name if the base is not resolved to a L{Class} object.
         """
-        for s,b in zip(o.bases, o.baseobjects):
+        for i,(s,b) in enumerate(zip(o.bases, o.baseobjects)):
             if isinstance(b, Class):
                 yield b
+            elif s in ('typing.Generic', 'typing_extensions.Generic') and \
+                 any(isinstance(n, ast.Subscript) for _,n in o.rawbases[i+1:]):
+                # typing drops 'Generic[...]' from the bases of a class when a later base 
+                # is a subscripted generic as well (see typing._GenericAlias.__mro_entries__).
+                continue
             else:
                 yield s
 
